@@ -14,6 +14,7 @@ for l in open('/verif/properties.jsonl'):
 FLAVOUR = {
   'a': 'Make the changes as different from one another as you can: different functions, different mechanisms (e.g. one at an input/boundary value, one in ordering/concurrency or a multi-step history, one on a rarely used configuration or error path).',
   'b': 'Make the changes as different from one another as you can, and aim each at a different one of these areas: (1) a type or representation corner (bytes vs str, int vs float vs bool, None, negative or zero or huge numbers, empty containers, repeated/duplicate elements, unicode); (2) an interaction between two features or settings that are each fine alone (a non-default setting combined with another, a code path shared by several daemon types, a helper used from two call sites with different expectations); (3) a lifecycle or state-reset path (reconnect, re-read of a configuration or rule file at run time, start-up order, shutdown, clear()/reset() leaving stale state, a cache or memo that outlives what it describes, a one-shot that is not re-armed). Prefer changes in helper functions and less central modules over the most obvious line of the main function.',
+  'c': 'Make the changes as different from one another as you can, and style each as a plausible, innocent-looking commit of a different kind: (1) a performance-motivated refactoring (a cache or memo, an early exit, batching, avoiding a copy or a repeated lookup, moving work out of a loop or out of a locked region); (2) a change to error handling, logging or clean-up (an exception class narrowed or widened, a try/finally or with-block restructured, a log line that formats its arguments, a handler or timer that is removed or not re-registered on some path); (3) a subtle logic slip (off-by-one in a slice, range or comparison, operands or branches swapped, a condition simplified that is not equivalent for an empty / single-element / already-present case, integer vs true division, default argument changed). Avoid the single most obvious line of the main function; prefer places a reviewer would skim.',
 }
 print(f"""You are helping to evaluate a verification effort for the open-source project graphite-project/carbon (Graphite's Carbon daemons: Twisted services that receive metrics, relay them with consistent hashing, aggregate, cache in memory and write to Whisper).
 
